@@ -38,6 +38,12 @@
                       consensusNow_eq_consensus (thresholds in [0,1], fewer than 2^52 trees)
     non-finite thr.   consensusThr_fin, nonfinite_threshold_rejected, nan_threshold_pinned_fails (def0221)
     oracle clause     oracle_lengths_where_defined
+    error records     (round 7, the channel `<-chan tree.Trees` with `Trees.Err` items, Model/C09Items.lean)
+                      consensusItems_trees, consensusItems_bad_never_ok, consensusItems_input_err,
+                      consensusItems_taxa_before_record, skip_bad_items_wrong
+    source facts      (round 7, Gen/C09Facts.lean regenerated from tree/algo.go, tree/edgeindex.go,
+                      cmd/consensus.go by harness/c09/extract.go) sourceFactsCheck, range_facts_model,
+                      keep_facts_model, cli_default_fact
   `consensus_splits_partial` keeps its round-1 name: it is the complete one-step lemma `insertSplit_spec`
   (not a partial result), superseded by `consensus_exact` / `consensus_meets_oracle`.
 
@@ -59,6 +65,8 @@ import Gotree.Lemmas.C09Oracle
 import Gotree.Lemmas.C09Reroot
 import Gotree.Lemmas.C09Float
 import Gotree.Lemmas.C09Witness
+import Gotree.Lemmas.C09Items
+import Gotree.Gen.C09Facts
 
 namespace Gotree.C09
 open Gotree
@@ -1177,5 +1185,190 @@ example : (∀ t ∈ exTipRoot, t.tipNames.Nodup ∧ LensGood t.splits) := fun t
 example : domB (exTipRoot.map rerootTip) = true ∧ lensOK (exTipRoot.map rerootTip) = true := by decide +kernel
 example : C09S.keysOK exTipRoot = true := keysOK_of_sidesN _ (by decide +kernel)
 example : C09S.keysOK (exTipRoot.map rerootTip) = true := keysOK_of_sidesN _ (by decide +kernel)
+
+/-! ### round 7: the channel with error records (tree/algo.go:284-290) -/
+
+/-- A channel that only holds trees: `consensusItems` is the tie model `consensusNow`
+    (hence `consensus` below 2^52 trees, `consensusNow_eq_consensus`). -/
+theorem consensusItems_trees (ord : List Entry → List Entry) (ts : List T) (c : Rat) :
+    consensusItems ord (ts.map Item.tree) c = consensusNow ord ts c := by
+  unfold consensusItems consensusItemsCut consensusNow consensusCut
+  rw [splitItems_trees]
+
+/-- A channel holding an error record never yields a consensus tree, whatever the trees, the
+    threshold and the place of the record. -/
+theorem consensusItems_bad_never_ok (ord : List Entry → List Entry) (items : List Item) (c : Rat)
+    (h : items.any Item.isBad = true) : ∀ r, consensusItems ord items c ≠ .ok r := by
+  intro r
+  obtain ⟨ts, m, e⟩ := splitItems_some_of_bad items h
+  unfold consensusItems consensusItemsCut
+  rw [e]
+  by_cases hr : (decide (c < 1/2) || decide (c > 1)) = true
+  · rw [if_pos hr]; intro h; cases h
+  · rw [if_neg hr]
+    simp only
+    split
+    · intro h; cases h
+    · split <;> (intro h; cases h)
+
+/-- On the property's domain (or when the record comes first) the error returned is the error of
+    the FIRST error record, whatever follows it in the channel. -/
+theorem consensusItems_input_err (ord : List Entry → List Entry) (pre : List T) (m : String)
+    (rest : List Item) (c : Rat) (hc : 1/2 ≤ c ∧ c ≤ 1) (hdom : pre = [] ∨ domB pre = true) :
+    consensusItems ord (pre.map Item.tree ++ Item.bad m :: rest) c = .err ("input:" ++ m) := by
+  unfold consensusItems consensusItemsCut
+  rw [splitItems_append_bad]
+  have h1 : (decide (c < 1/2) || decide (c > 1)) = false := by
+    simp only [Bool.or_eq_false_iff, decide_eq_false_iff_not, Rat.not_lt]
+    exact ⟨hc.1, hc.2⟩
+  rw [if_neg (by simp [h1])]
+  simp only
+  rcases hdom with rfl | hdom
+  · rfl
+  · have hdeg := deg_of_domB pre hdom
+    rw [map_rerootTip_of_deg pre hdeg]
+    have h2 : (pre.any fun t => decide (t.kids.length < 2)) = false := by
+      simp only [List.any_eq_false, decide_eq_true_eq, Nat.not_lt]
+      exact hdeg
+    rw [if_neg (by simp [h2])]
+    obtain ⟨cn, hcn⟩ := countAll_of_dom pre (dom_of_domB pre hdom)
+    rw [hcn]
+
+/-- Negative witness: a variant that skips error records (`continue` instead of `return`) answers
+    with the consensus of the readable trees — accepted where the code and the property reject. -/
+theorem skip_bad_items_wrong :
+    (consensusItemsSkip id (exColl.map Item.tree ++ [Item.bad "unreadable"]) (1/2)).cls = "ok" ∧
+    consensusItems id (exColl.map Item.tree ++ [Item.bad "unreadable"]) (1/2) = .err "input:unreadable" ∧
+    consensusItems id (Item.bad "unreadable" :: exColl.map Item.tree) (1/2) = .err "input:unreadable" :=
+  ⟨by decide +kernel, consensusItems_input_err id exColl _ [] _ (by decide +kernel) (Or.inr (by decide +kernel)),
+   consensusItems_input_err id [] _ _ _ (by decide +kernel) (Or.inl rfl)⟩
+
+/- the hypotheses are satisfiable: `exColl` is in the domain, an error record in the middle -/
+example : consensusItems id ((exColl.take 2).map Item.tree ++ Item.bad "e" :: (exColl.drop 2).map Item.tree) (2/3)
+    = .err "input:e" :=
+  consensusItems_input_err id _ _ _ _ (by decide +kernel) (Or.inr (by decide +kernel))
+example : consumedItems (exColl.map Item.tree ++ [Item.bad "unreadable"]) (1/2) = 4 ∧
+    consumedItems (exColl.map Item.tree) (1/4) = 0 := by decide +kernel
+
+/-! ### round 7: facts regenerated from the source (Gen/C09Facts.lean) -/
+
+/-- What `harness/c09/extract.go` reads in tree/algo.go, tree/edgeindex.go and cmd/consensus.go on every
+    run is what the model was written from: the range test and its message, `NewEdgeIndex(128, .75)`, the
+    order of the per-tree steps (`Reroot`, `RemoveSingleNodes`, `UnRoot`, `ReinitIndexes`), the count cut
+    and its FMA correction, the arguments of `Edges`, the filter of `EdgeIndex.Edges`, the refusal test of
+    `AddBipartition`, the flag `-f` (`--freq-min`) with
+    its own variable and default 0.5, that very variable handed to `tree.Consensus`. -/
+theorem sourceFactsCheck : (Gen.C09.facts == C09F.expected) = true := by decide +kernel
+
+/-- The range test of the source, interpreted over the rationals, is the model's
+    (`consensusG`: `if c < 1/2 || c > 1 then .err "range"`). -/
+theorem range_facts_model (c : Rat) :
+    C09F.evalB [("cutoff", c)] Gen.C09.facts.rangeCond = some (decide (c < 1/2) || decide (c > 1)) := by
+  have h : Gen.C09.facts.rangeCond = C09F.expectedRange := rfl
+  rw [h]
+  have e1 : ((1 : Nat) : Rat) / ((2 : Nat) : Rat) = 1/2 := by decide +kernel
+  have e2 : ((1 : Nat) : Rat) / ((1 : Nat) : Rat) = 1 := by decide +kernel
+  simp only [C09F.expectedRange, C09F.evalB, C09F.evalR, C09F.cmpR, List.lookup, e1, e2]
+  by_cases h1 : c < 1/2 <;> by_cases h2 : c > 1 <;> simp_all [Rat.not_lt] <;> grind
+
+/-- The filter of `EdgeIndex.Edges`, interpreted over the naturals, is the model's `keep`. -/
+theorem keep_facts_model (m n : Nat) (x : Entry) :
+    C09F.evalBN [("v.Count", x.count), ("minCount", m), ("maxCount", n)] Gen.C09.facts.keepCond
+      = some (keep m n x) := by
+  have h : Gen.C09.facts.keepCond = C09F.expectedKeep := rfl
+  rw [h]
+  simp [C09F.expectedKeep, C09F.evalBN, C09F.evalN, C09F.cmpN, List.lookup, keep]
+
+/-- The default of `-f` in the source is the model's (`cliCutoff none`), and the variable the flag
+    fills is the one handed to `tree.Consensus`. -/
+theorem cli_default_fact :
+    (C09F.evalR [] Gen.C09.facts.flagDefault).map some = some (cliCutoff none) ∧
+    Gen.C09.facts.consensusArgs = [.v "treechan", .v Gen.C09.facts.flagVar] := by
+  constructor
+  · decide +kernel
+  · rfl
+
+/-! ### round 7: the first obstacle in channel order decides -/
+
+/-- The first obstacle in channel order decides: a tree with other tips than the first one, placed in
+    front of the first error record, gives the taxa error, not the record's (hypotheses of
+    `different_taxa_err` on the trees in front of the record). -/
+theorem consensusItems_taxa_before_record (ord : List Entry → List Entry) (t : T) (r : List T) (m : String)
+    (rest : List Item) (c : Rat) (hc : 1/2 ≤ c ∧ c ≤ 1)
+    (hdeg : ∀ u ∈ t :: r, 2 ≤ u.kids.length ∧ 2 ≤ (norm u).kids.length)
+    (hnd : ∀ u ∈ t :: r, (norm u).tipNames.Nodup)
+    (hdiff : ∃ u ∈ r, ¬ (norm u).tipNames.Perm (norm t).tipNames) :
+    consensusItems ord ((t :: r).map Item.tree ++ Item.bad m :: rest) c = .err "taxa" := by
+  unfold consensusItems consensusItemsCut
+  rw [splitItems_append_bad]
+  simp only
+  rw [map_rerootTip_of_deg (t :: r) (fun u hu => (hdeg u hu).1)]
+  have h1 : (decide (c < 1/2) || decide (c > 1)) = false := by
+    simp only [Bool.or_eq_false_iff, decide_eq_false_iff_not, Rat.not_lt]
+    exact ⟨hc.1, hc.2⟩
+  have h2 : ((t :: r).any fun t => decide (t.kids.length < 2)) = false := by
+    simp only [List.any_eq_false, decide_eq_true_eq, Nat.not_lt]
+    exact fun u hu => (hdeg u hu).1
+  rw [if_neg (by simp [h1]), if_neg (by simp [h2])]
+  have hpt : ∀ u ∈ t :: r, prep true true u = norm u := fun _ _ => rfl
+  have hdupF : ∀ u ∈ t :: r, dupTips (prep true true u) = false := by
+    intro u hu
+    rw [hpt u hu]; unfold dupTips
+    exact (hasDup_false_iff _).2 (hnd u hu)
+  have hat : ∀ u ∈ t :: r, allTipNames (norm u) = (norm u).tipNames := by
+    intro u hu
+    apply allTipNames_eq
+    have := (hdeg u hu).2
+    omega
+  -- the first tree has at least two tip branches
+  have hfirst : 2 ≤ ((norm t).splits.filter (·.tip)).length := by
+    have h3 := tipSplitsL (norm t).kids
+    have h4 : (norm t).tipNames = leavesL (norm t).kids := by
+      rw [← hat t (by simp)]; unfold allTipNames
+      have : ((norm t).kids.length == 1) = false := by
+        have := (hdeg t (by simp)).2
+        simp; omega
+      simp [this]
+    have h5 : ((norm t).splits.filter (·.tip)).length = (leavesL (norm t).kids).length := by
+      rw [← h3, List.length_map]; rfl
+    rw [h5]
+    have := leavesL_len (norm t).kids
+    have := (hdeg t (by simp)).2
+    omega
+  rw [countAll]
+  have hd0 := hdupF t (by simp)
+  simp only [hd0, Bool.false_eq_true, if_false]
+  rw [if_neg (by rw [hpt t (by simp)]; omega)]
+  have hstar : (starOf (prep true true t)).tipNames = (norm t).tipNames := by
+    rw [hpt t (by simp), starOf_tipNames _ hfirst, ← hat t (by simp)]
+    unfold allTipNames
+    have : ((norm t).kids.length == 1) = false := by
+      have := (hdeg t (by simp)).2
+      simp; omega
+    simp [this]
+  have : countRest true true (prep true true t) (allTipNames (prep true true t)) (sortN (prep true true t).tipNames) r
+      (addTree (sortN (prep true true t).tipNames) [] (prep true true t)) 1 = .error "taxa" := by
+    apply countRest_taxa
+    · exact fun u hu => hdupF u (by simp [hu])
+    · obtain ⟨u, hu, hnp⟩ := hdiff
+      refine ⟨u, hu, ?_⟩
+      rw [hstar, hpt u (by simp [hu]), hpt t (by simp)]
+      rw [hat u (by simp [hu]), hat t (by simp)]
+      apply Classical.byContradiction
+      intro hcon
+      rw [not_or] at hcon
+      have hA : ((norm u).tipNames.length != (norm t).tipNames.length) = false := by
+        simpa using hcon.1
+      have hB : ((norm u).tipNames.all fun a => (norm t).tipNames.contains a) = true := by
+        have := hcon.2; simpa using this
+      have hlen : (norm u).tipNames.length = (norm t).tipNames.length := by simpa using hA
+      have hsub' : (norm u).tipNames ⊆ (norm t).tipNames := fun a ha => by
+        have := List.all_eq_true.1 hB a ha; simpa using this
+      have hback := sub_of_length (hnd u (by simp [hu])) hsub' (by omega)
+      apply hnp
+      rw [List.perm_ext_iff_of_nodup (hnd u (by simp [hu])) (hnd t (by simp))]
+      exact fun a => ⟨fun h => hsub' h, fun h => hback h⟩
+  rw [this]
+
 
 end Gotree.C09
